@@ -165,3 +165,14 @@ def guarded(ctx, case, fn, *a, **kw):
         f'harness-error {type(e).__name__}: {e} :: '
         + traceback.format_exc().splitlines()[-3].strip())
     return None
+
+
+class RepoRefusedValidInput(Exception):
+  """Raised by harness builders when the repository rejects (raises on) an input
+  that the documentation says is valid, at a place where the harness cannot
+  continue. The runner turns it into a violation (not into an inconclusive
+  shard crash): refusing a valid definition is observable misbehaviour."""
+
+  def __init__(self, mech, what, case):
+    super().__init__(what)
+    self.mech, self.what, self.case = mech, what, case
